@@ -1,4 +1,5 @@
 """Obligations, verdicts, evidence files, known findings (DESIGN.md section 4)."""
+import ast
 import json
 import os
 import sys
@@ -9,6 +10,16 @@ from .resolve import Resolver
 from .paths import Enumerator
 
 VERIF = os.path.dirname(os.path.dirname(os.path.abspath(__file__)))
+
+
+def _memoised(f):
+    """A helper under a caching decorator is not 'the same statements somewhere else': what
+    it returns may be the answer to an earlier call.  It is never inlined transparently."""
+    for d in getattr(f.node, 'decorator_list', []) or []:
+        t = ast.unparse(d)
+        if any(x in t for x in ("lru_cache", "functools.cache", "cached_property", "memoize")) or t == "cache":
+            return True
+    return False
 
 
 def _plain(d):
@@ -81,7 +92,7 @@ class Analysis:
         en.nonnull = r.returns_instance
         if transparent == 'default':
             anchors = self.anchors()
-            en.transparent = lambda f: f.qualname not in anchors
+            en.transparent = lambda f: f.qualname not in anchors and not _memoised(f)
         elif transparent is not None:
             en.transparent = transparent
         if keep is not None:
